@@ -13,6 +13,7 @@ including 0, every bias, both activation variants, all operand and operator boun
 every ordered field.
 -/
 import LnnVerif.Lemmas.Hull
+import LnnVerif.Lemmas.Engine
 import Mathlib.Algebra.Order.Field.Rat
 
 set_option linter.unusedSectionVars false
@@ -532,6 +533,268 @@ theorem C03_implies_operand_hull (b : α) (self : Bounds α) (x y : Opd α) (hwf
     refine ⟨_, hf, a, c, rfl, ?_⟩
     have : c = ry.lo := by simpa using hv
     simp [this]
+
+/-! ## link to the engine model: `andUpDown` is what `stepUp` followed by `stepDown` computes -/
+
+section engine
+
+variable {ι : Type} [DecidableEq ι]
+
+theorem writeOps_other (l : List (Nat × ι × Bounds α)) (s : State ι α) (j : ι)
+    (h : ∀ e ∈ l, e.2.1 ≠ j) : (writeOps l none s).1 j = s j := by
+  induction l generalizing s with
+  | nil => simp [writeOps]
+  | cons e rest ih =>
+    obtain ⟨k, j', p⟩ := e
+    unfold writeOps
+    simp only [true_or, if_true]
+    rw [ih _ (fun e' he' => h e' (List.mem_cons_of_mem _ he'))]
+    have : j' ≠ j := h (k, j', p) (List.mem_cons_self ..)
+    simp [Function.update, this.symm]
+
+/-- with pairwise distinct operands, each operand receives exactly the aggregation of its own
+proposal with its previous bounds -/
+theorem writeOps_nodup (js : List ι) (ps : List (Bounds α)) (k : Nat) (s : State ι α)
+    (hnd : js.Nodup) (m : Nat) (hm : m < js.length) (hp : m < ps.length) :
+    (writeOps (enumFrom k (List.zip js ps)) none s).1 js[m] = (aggregate .both (s js[m]) ps[m]).1 := by
+  induction js generalizing ps k s m with
+  | nil => simp at hm
+  | cons j js ih =>
+    cases ps with
+    | nil => simp at hp
+    | cons p ps =>
+      have hj : j ∉ js := (List.nodup_cons.mp hnd).1
+      simp only [List.zip_cons_cons, enumFrom]
+      unfold writeOps
+      simp only [true_or, if_true]
+      cases m with
+      | zero =>
+        simp only [List.getElem_cons_zero]
+        rw [writeOps_other]
+        · simp
+        · intro e he hej
+          have := mem_enumFrom _ _ e he
+          exact hj (hej ▸ (List.of_mem_zip this).1)
+      | succ m =>
+        simp only [List.getElem_cons_succ]
+        have hm' : m < js.length := by simpa using hm
+        have hp' : m < ps.length := by simpa using hp
+        rw [ih ps (k + 1) _ (List.nodup_cons.mp hnd).2 m hm' hp']
+        have hne : js[m] ≠ j := fun h => hj (h ▸ List.getElem_mem hm')
+        simp [Function.update, hne]
+
+theorem opds_congr (n : Node ι α) (s s' : State ι α) (h : ∀ j ∈ n.ops, s j = s' j) :
+    opds n s = opds n s' := by
+  unfold opds
+  generalize n.ws = ws
+  generalize n.ops = js at h
+  induction js generalizing ws with
+  | nil => simp
+  | cons j js ih =>
+    cases ws with
+    | nil => simp
+    | cons w ws =>
+      simp only [List.zipWith_cons_cons, h j (List.mem_cons_self ..)]
+      rw [ih ws (fun j' hj' => h j' (List.mem_cons_of_mem _ hj'))]
+
+theorem actDown_congr (n : Node ι α) (self : Bounds α) (s s' : State ι α)
+    (h : opds n s = opds n s') : actDown n self s = actDown n self s' := by
+  unfold actDown; rw [h]
+
+/-- a connective node (And, Or, Implies) -/
+def IsConn (n : Node ι α) : Prop := n.kind = .and ∨ n.kind = .or ∨ n.kind = .implies
+
+/-- **One upward and one downward step of the engine on a connective** with pairwise distinct
+operands different from the node itself, from a state where the node is not arrested: `stepUp`
+aggregates the upward activation into the node; if the node is still not arrested, `stepDown`
+leaves it alone and aggregates the `m`-th downward proposal into the `m`-th operand. -/
+theorem stepUp_stepDown_conn (kb : KB ι α) (i : ι) (s : State ι α) (hk : IsConn (kb i))
+    (hnd : (kb i).ops.Nodup) (hi : i ∉ (kb i).ops) (h1 : arrested kb s i = false) :
+    let s1 := (stepUp kb i s).1
+    let s2 := (stepDown kb i none s1).1
+    let self' := (aggregate .both (s i) (actUp (kb i) s)).1
+    let props := actDown (kb i) self' s
+    s1 i = self' ∧
+    (arrested kb s1 i = false → s2 i = self' ∧
+      ∀ m (hm : m < (kb i).ops.length) (hp : m < props.length),
+        s2 ((kb i).ops[m]) = (aggregate .both (s ((kb i).ops[m])) props[m]).1) := by
+  intro s1 s2 self' props
+  have hs1 : s1 = Function.update s i self' := by
+    rcases hk with hk | hk | hk <;> simp only [s1, stepUp, hk, h1] <;> rfl
+  have hops : opds (kb i) s1 = opds (kb i) s := by
+    apply opds_congr
+    intro j hj
+    have : j ≠ i := fun h => hi (h ▸ hj)
+    simp [hs1, this]
+  have hs1i : s1 i = self' := by simp [hs1]
+  refine ⟨hs1i, fun h2 => ?_⟩
+  have hs2 : s2 = (writeOps (enumFrom 0 (List.zip (kb i).ops props)) none s1).1 := by
+    have hp : actDown (kb i) (s1 i) s1 = props := by
+      rw [hs1i]; exact actDown_congr _ _ _ _ hops
+    rcases hk with hk | hk | hk <;> simp only [s2, stepDown, hk, h2, hp] <;> rfl
+  constructor
+  · rw [hs2, writeOps_other, hs1i]
+    intro e he hej
+    have := mem_enumFrom _ _ e he
+    exact hi (hej ▸ (List.of_mem_zip this).1)
+  · intro m hm hp
+    rw [hs2, writeOps_nodup _ _ 0 s1 hnd m hm hp]
+    have hne : (kb i).ops[m] ≠ i := by
+      intro h
+      have hmem := List.getElem_mem hm
+      rw [h] at hmem
+      exact hi hmem
+    have hs1m : s1 (kb i).ops[m] = s (kb i).ops[m] := by simp [hs1, hne]
+    rw [hs1m]
+
+/-- a node whose own bounds are contradictory is arrested: `stepDown` changes nothing -/
+theorem stepDown_arrested (kb : KB ι α) (i : ι) (s : State ι α) (hk : IsConn (kb i))
+    (hc : isContra (kb i).alpha (s i) = true) :
+    arrested kb s i = true ∧ stepDown kb i none s = (s, 0) := by
+  have harr : arrested kb s i = true := by
+    unfold arrested
+    simp [hc]
+  refine ⟨harr, ?_⟩
+  rcases hk with hk | hk | hk <;> simp [stepDown, hk, harr]
+
+theorem zipWith_writeBack_get (n : Node ι α) (s : State ι α) (props : List (Bounds α)) (m : Nat)
+    (hm : m < n.ops.length) (hm' : m < n.ws.length) (hp : m < props.length) :
+    (List.zipWith writeBack (opds n s) props)[m]?
+      = some (aggregate .both (s (n.ops[m])) props[m]).1 := by
+  have hol : m < (opds n s).length := by simp [opds, hm, hm']
+  simp only [List.getElem?_zipWith, List.getElem?_eq_getElem hol, List.getElem?_eq_getElem hp]
+  simp [writeBack, opds]
+
+/-- the same with the operand results collected in a list, for any description `self'`, `props`
+of the two activations -/
+theorem stepUp_stepDown_list (kb : KB ι α) (i : ι) (s : State ι α) (hk : IsConn (kb i))
+    (hlen : (kb i).ops.length = (kb i).ws.length) (hnd : (kb i).ops.Nodup) (hi : i ∉ (kb i).ops)
+    (h1 : arrested kb s i = false) (self' : Bounds α) (props : List (Bounds α))
+    (hself : (aggregate .both (s i) (actUp (kb i) s)).1 = self')
+    (hprops : actDown (kb i) self' s = props) :
+    (stepUp kb i s).1 i = self' ∧
+    (arrested kb (stepUp kb i s).1 i = false →
+      (stepDown kb i none (stepUp kb i s).1).1 i = self' ∧
+      ∀ m (hm : m < (kb i).ops.length), m < props.length →
+        (List.zipWith writeBack (opds (kb i) s) props)[m]?
+          = some ((stepDown kb i none (stepUp kb i s).1).1 ((kb i).ops[m]))) := by
+  subst hself
+  subst hprops
+  obtain ⟨k1, k2⟩ := stepUp_stepDown_conn kb i s hk hnd hi h1
+  refine ⟨k1, fun h2 => ⟨(k2 h2).1, fun m hm hp => ?_⟩⟩
+  rw [(k2 h2).2 m hm hp]
+  exact zipWith_writeBack_get (kb i) s _ m hm (hlen ▸ hm) hp
+
+/-- **`andUpDown` is the engine** on an And node at alpha = 1 with as many weights as operands:
+`stepUp` writes `(andUpDown …).1` on the node and, unless that arrests the node, `stepDown` writes
+`(andUpDown …).2[m]` on the `m`-th operand. -/
+theorem stepUp_stepDown_and (kb : KB ι α) (i : ι) (s : State ι α)
+    (hk : (kb i).kind = .and) (ha : (kb i).alpha = 1)
+    (hlen : (kb i).ops.length = (kb i).ws.length) (hnd : (kb i).ops.Nodup) (hi : i ∉ (kb i).ops)
+    (h1 : arrested kb s i = false) :
+    let s1 := (stepUp kb i s).1
+    let s2 := (stepDown kb i none s1).1
+    let res := andUpDown (kb i).bias (s i) (opds (kb i) s)
+    s1 i = res.1 ∧
+    (arrested kb s1 i = false → s2 i = res.1 ∧
+      ∀ m (hm : m < (kb i).ops.length), res.2[m]? = some (s2 ((kb i).ops[m]))) := by
+  intro s1 s2 res
+  obtain ⟨k1, k2⟩ := stepUp_stepDown_list kb i s (Or.inl hk) hlen hnd hi h1 res.1
+    (andDown (kb i).bias 1 res.1.lo res.1.hi (opds (kb i) s))
+    (by simp only [actUp, hk]; rfl) (by simp only [actDown, hk, ha])
+  refine ⟨k1, fun h2 => ⟨(k2 h2).1, fun m hm => (k2 h2).2 m hm ?_⟩⟩
+  simp [andDown, opds, hm, hlen ▸ hm]
+
+/-- **`orUpDown` is the engine** on an Or node (either activation variant). -/
+theorem stepUp_stepDown_or (kb : KB ι α) (i : ι) (s : State ι α)
+    (hk : (kb i).kind = .or) (ha : (kb i).alpha = 1)
+    (hlen : (kb i).ops.length = (kb i).ws.length) (hnd : (kb i).ops.Nodup) (hi : i ∉ (kb i).ops)
+    (h1 : arrested kb s i = false) :
+    let s1 := (stepUp kb i s).1
+    let s2 := (stepDown kb i none s1).1
+    let res := orUpDown (kb i).transparent (kb i).bias (s i) (opds (kb i) s)
+    s1 i = res.1 ∧
+    (arrested kb s1 i = false → s2 i = res.1 ∧
+      ∀ m (hm : m < (kb i).ops.length), res.2[m]? = some (s2 ((kb i).ops[m]))) := by
+  intro s1 s2 res
+  obtain ⟨k1, k2⟩ := stepUp_stepDown_list kb i s (Or.inr (Or.inl hk)) hlen hnd hi h1 res.1
+    (orDown (kb i).bias 1 res.1.lo res.1.hi (opds (kb i) s))
+    (by simp only [actUp, hk]; rfl) (by simp only [actDown, hk, ha])
+  refine ⟨k1, fun h2 => ⟨(k2 h2).1, fun m hm => (k2 h2).2 m hm ?_⟩⟩
+  simp [orDown, andDown, opds, hm, hlen ▸ hm]
+
+/-- **`impliesUpDown` is the engine** on an Implies node whose operands are seen as `[x, y]`. -/
+theorem stepUp_stepDown_implies (kb : KB ι α) (i : ι) (s : State ι α) (x y : Opd α)
+    (hk : (kb i).kind = .implies) (ha : (kb i).alpha = 1) (hxy : opds (kb i) s = [x, y])
+    (hlen : (kb i).ops.length = (kb i).ws.length) (hnd : (kb i).ops.Nodup) (hi : i ∉ (kb i).ops)
+    (h1 : arrested kb s i = false) :
+    let s1 := (stepUp kb i s).1
+    let s2 := (stepDown kb i none s1).1
+    let res := impliesUpDown (kb i).bias (s i) x y
+    s1 i = res.1 ∧
+    (arrested kb s1 i = false → s2 i = res.1 ∧
+      ∀ m (hm : m < (kb i).ops.length), res.2[m]? = some (s2 ((kb i).ops[m]))) := by
+  intro s1 s2 res
+  obtain ⟨k1, k2⟩ := stepUp_stepDown_list kb i s (Or.inr (Or.inr hk)) hlen hnd hi h1 res.1
+    (impliesDown (kb i).bias 1 res.1.lo res.1.hi [x, y])
+    (by simp only [actUp, hk, hxy]; rfl) (by simp only [actDown, hk, ha, hxy])
+  rw [hxy] at k2
+  refine ⟨k1, fun h2 => ⟨(k2 h2).1, fun m hm => (k2 h2).2 m hm ?_⟩⟩
+  have hl : (kb i).ops.length = 2 := by
+    have : (opds (kb i) s).length = 2 := by rw [hxy]; rfl
+    simp only [opds, List.length_zipWith, ← hlen, min_self] at this
+    exact this
+  obtain ⟨px, py, h⟩ := andDown_pair (kb i).bias 1 (1 - res.1.hi) (1 - res.1.lo) x y.neg
+  have : (impliesDown (kb i).bias 1 res.1.lo res.1.hi [x, y]).length = 2 := by
+    simp [impliesDown, h]
+  omega
+
+/-- when the given bounds admit no assignment the node is arrested after `stepUp`, so `stepDown`
+changes nothing: the contradiction is reported at the connective (And) -/
+theorem stepUp_arrests_and (kb : KB ι α) (i : ι) (s : State ι α)
+    (hk : (kb i).kind = .and) (ha : (kb i).alpha = 1) (h1 : arrested kb s i = false)
+    (hwf : WfIn (s i) (opds (kb i) s))
+    (hinf : ¬ ∃ xs, Feasible (kb i).bias (s i) (opds (kb i) s) xs) :
+    let s1 := (stepUp kb i s).1
+    isContra 1 (s1 i) = true ∧ arrested kb s1 i = true ∧ stepDown kb i none s1 = (s1, 0) := by
+  intro s1
+  have hs1 : s1 i = (andUpDown (kb i).bias (s i) (opds (kb i) s)).1 := by
+    simp only [s1, stepUp, hk, h1, actUp, andUpDown]
+    simp
+  have hc := (C03_and_infeasible (kb i).bias (s i) (opds (kb i) s) hwf hinf).2
+  rw [← hs1] at hc
+  exact ⟨hc, stepDown_arrested kb i s1 (Or.inl hk) (by rw [ha]; exact hc)⟩
+
+theorem stepUp_arrests_or (kb : KB ι α) (i : ι) (s : State ι α)
+    (hk : (kb i).kind = .or) (ha : (kb i).alpha = 1) (h1 : arrested kb s i = false)
+    (hwf : WfIn (s i) (opds (kb i) s))
+    (hinf : ¬ ∃ xs, OrFeasible (kb i).bias (s i) (opds (kb i) s) xs) :
+    let s1 := (stepUp kb i s).1
+    isContra 1 (s1 i) = true ∧ arrested kb s1 i = true ∧ stepDown kb i none s1 = (s1, 0) := by
+  intro s1
+  have hs1 : s1 i = (orUpDown (kb i).transparent (kb i).bias (s i) (opds (kb i) s)).1 := by
+    simp only [s1, stepUp, hk, h1, actUp, orUpDown]
+    simp
+  have hc := (C03_or_infeasible (kb i).transparent (kb i).bias (s i) (opds (kb i) s) hwf hinf).2
+  rw [← hs1] at hc
+  exact ⟨hc, stepDown_arrested kb i s1 (Or.inr (Or.inl hk)) (by rw [ha]; exact hc)⟩
+
+theorem stepUp_arrests_implies (kb : KB ι α) (i : ι) (x y : Opd α) (s : State ι α)
+    (hk : (kb i).kind = .implies) (ha : (kb i).alpha = 1) (h1 : arrested kb s i = false)
+    (hops : opds (kb i) s = [x, y]) (hwf : WfIn (s i) [x, y])
+    (hinf : ¬ ∃ vx vy, ImpFeasible (kb i).bias (s i) x y vx vy) :
+    let s1 := (stepUp kb i s).1
+    isContra 1 (s1 i) = true ∧ arrested kb s1 i = true ∧ stepDown kb i none s1 = (s1, 0) := by
+  intro s1
+  have hs1 : s1 i = (impliesUpDown (kb i).bias (s i) x y).1 := by
+    simp only [s1, stepUp, hk, h1, actUp, impliesUpDown, hops]
+    simp
+  have hc := (C03_implies_infeasible (kb i).bias (s i) x y hwf hinf).2
+  rw [← hs1] at hc
+  exact ⟨hc, stepDown_arrested kb i s1 (Or.inr (Or.inr hk)) (by rw [ha]; exact hc)⟩
+
+end engine
+
 
 /-! ## non-vacuity: concrete instances over ℚ meet every hypothesis, and the two steps really
 tighten bounds -/
